@@ -225,6 +225,57 @@ static __thread struct rhs {
         uint64_t cursor; /* bytes of the stream consumed so far: the caller resumes where the library stopped */
 } rs[NS];
 
+/* rhuntil scan w b off len mask trig place : the exported inner scan called directly */
+static void
+do_rhuntil(const cmd *c)
+{
+        const char *scan = c->t[1];
+        uint32_t w = (uint32_t) cmd_i(c, 2), b = (uint32_t) cmd_i(c, 3);
+        uint64_t off = (uint64_t) cmd_i(c, 4), len = (uint64_t) cmd_i(c, 5);
+        uint32_t mask = (uint32_t) cmd_i(c, 6), trig = (uint32_t) cmd_i(c, 7);
+        int pl;
+        unsigned al;
+        gbuf in, idxp;
+        static __thread struct isal_rh_state2 st;
+        gbuf_parse_place(c->t[8], &pl, &al);
+        gbuf_alloc(&in, w + len, pl, al);
+        pat_fill(in.p, b, off, w + len);
+        gbuf_alloc(&idxp, 4, PL_END, 0);
+        *(uint32_t *) idxp.p = 0;
+        {       /* tables and the hash of the first window from the library's own (muted) init / reset */
+                obs o0;
+                uint64_t a0[2] = { (uint64_t) &st, w };
+                vc_begin();
+                vcall(need("_rolling_hash2_init"), 2, a0, &o0);
+                uint64_t a1[2] = { (uint64_t) &st, (uint64_t) in.p };
+                vc_begin();
+                vcall(need("_rolling_hash2_reset"), 2, a1, &o0);
+        }
+        obs o;
+        uint64_t a[9] = { (uint64_t) idxp.p, len, (uint64_t) st.table1, (uint64_t) st.table2, (uint64_t) (in.p + w), (uint64_t) in.p,
+                          st.hash, mask, trig };
+        vc_begin();
+        vc_input("in", &in);
+        vc_output("idx", &idxp);
+        uint64_t h = vcall(need("_rolling_hash2_run_until_%s", scan), 9, a, &o);
+        ev_begin("RhUntil");
+        ev_str("scan", scan);
+        ev_int("w", w);
+        {
+                char sb[96];
+                snprintf(sb, sizeof sb, "[%u,%llu,%llu]", b, (unsigned long long) (off & (PAT_PERIOD - 1)), (unsigned long long) len);
+                ev_raw("data", sb);
+        }
+        ev_hex("mask", &mask, 4);
+        ev_hex("trig", &trig, 4);
+        ev_int("idx", o.fault ? -1 : (long long) (*(uint32_t *) idxp.p & 0x7fffffff));
+        ev_hex("hash", &h, 8);
+        ev_obs(&o);
+        ev_end();
+        gbuf_free(&in);
+        gbuf_free(&idxp);
+}
+
 /* rhinit sid fam scan w */
 static void
 do_rhinit(const cmd *c)
@@ -416,7 +467,9 @@ mh_cmd(const cmd *c)
                 struct rhs *r = &rs[(int) cmd_i(c, 1)];
                 if (r->used)
                         gbuf_move_obj(&r->st, (unsigned) _Alignof(struct isal_rh_state2));
-        } else if (!strcmp(c->t[0], "mhinit"))
+        } else if (!strcmp(c->t[0], "rhuntil"))
+                do_rhuntil(c);
+        else if (!strcmp(c->t[0], "mhinit"))
                 do_mhinit(c);
         else if (!strcmp(c->t[0], "mhupd"))
                 do_mhupd(c);
